@@ -38,6 +38,9 @@ type CaseR struct {
 	// Docs: bit k set = definition k carries a documentation string (a redefinition must take over the whole new
 	// definition also when only one of the two has documentation)
 	Docs int `json:"docs,omitempty"`
+	// Unbind: bit k set (k >= 1) = the name is made unbound with fmakunbound right before definition k; the callers
+	// compiled earlier must see definition k all the same
+	Unbind int `json:"unbind,omitempty"`
 }
 
 var callForms = []string{"direct", "funcall-name", "funcall-function", "apply-name", "compiled-caller"}
@@ -136,6 +139,12 @@ func runR(c CaseR) *h.Result {
 	for k, sh := range c.Shapes {
 		ps := sh.Params()
 		mark := "entered-" + strconv.Itoa(k)
+		if k > 0 && c.Unbind&(1<<k) != 0 {
+			if r := setup("(fmakunbound '" + name + ")"); r != nil {
+				return r
+			}
+			res.Classes = append(res.Classes, "R:fmakunbound-before-redefinition")
+		}
 		doc := ""
 		if c.Docs&(1<<k) != 0 {
 			doc = " \"definition " + strconv.Itoa(k) + "\""
@@ -232,6 +241,9 @@ func genR(rt *rapid.T) (c CaseR) {
 	}
 	c.Rot = rapid.IntRange(0, len(c.Vecs)*len(callForms)-1).Draw(rt, "rot")
 	c.Docs = rapid.IntRange(0, 1<<n-1).Draw(rt, "docs")
+	if rapid.IntRange(0, 2).Draw(rt, "unbind") == 0 {
+		c.Unbind = rapid.IntRange(1, 1<<n-1).Draw(rt, "unbindmask") &^ 1
+	}
 	return
 }
 
@@ -276,7 +288,7 @@ func gridR(three bool, yield func(CaseR) bool) {
 					if idx%h.C.NShards != h.C.Shard {
 						continue
 					}
-					c := CaseR{Shapes: []Case{a, b}, Vecs: vecs, Forward: mode > 0, Early: mode == 2, Rot: rot, Docs: idx % 4}
+					c := CaseR{Shapes: []Case{a, b}, Vecs: vecs, Forward: mode > 0, Early: mode == 2, Rot: rot, Docs: idx % 4, Unbind: (idx / 4 % 3 / 2) * 6}
 					if three {
 						c.Shapes = append(c.Shapes, a)
 					}
